@@ -60,6 +60,14 @@ def gen_bytes(rng, max_len=8) -> list[int]:
     return [rng.choice([rng.randrange(256), rng.choice(b"%+ ./aZ09~-_%%%")]) for _ in range(rng.randrange(0, max_len + 1))]
 
 
+def guard(fn, *args, **kwargs):
+    """call the implementation; an exception is an observation ("EXC:<type>"), never an infrastructure error"""
+    try:
+        return fn(*args, **kwargs)
+    except Exception as e:  # noqa: BLE001
+        return f"EXC:{type(e).__name__}"
+
+
 def model_err(m, inp):
     if isinstance(m, dict) and "__err__" in m:
         raise InfraError(f"model error {m} on {inp}")
@@ -137,10 +145,14 @@ def corr_quote_all(chk, n, variant):
     vals += [gen_text(rng) for _ in range(n)]
     vals += [rng.choice([True, False, None, rng.randrange(-1000, 1000)]) for _ in range(max(4, n // 20))]
     outs = drv.batch([("quote_all", {"variant": variant, "val": pval_wire(v)}) for v in vals])
-    impls = [quote_all({"k": v})["k"] for v in vals]
-    decode_segments(chk, [B(i) for v, i in zip(vals, impls) if isinstance(v, str)])
+    impls = [guard(lambda v=v: quote_all({"k": v})["k"]) for v in vals]
+    decode_segments(chk, [B(i) for v, i in zip(vals, impls) if isinstance(v, str) and isinstance(i, str)])
     for v, m, impl in zip(vals, outs, impls):
         model_err(m, v)
+        if isinstance(v, str) and not isinstance(impl, str) or (isinstance(impl, str) and impl.startswith("EXC:") and not isinstance(v, str)):
+            chk.disagreement("quote_all", {"value": v, "variant": variant}, m["quoted"], repr(impl))
+            chk.violation("C06:quote_all:raised-or-changed-type", f"quote_all({v!r}) gave {impl!r}", {"mechanism": "quote_all", "value": v})
+            continue
         impl_w = pval_wire(impl)
         chk.case("quote_all", key=pval_wire(v), nontrivial=isinstance(v, str) and v != "", sample={"value": v, "impl": impl})
         chk.feature("quote_all:" + ("str" if isinstance(v, str) else type(v).__name__))
@@ -385,7 +397,7 @@ def corr_jsonify_stringify(chk, n, vj):
     outs = drv.batch([("jsonify", {"v": vj, "container": enc_container(c)}) for c in conts])
     for c, m in zip(conts, outs):
         model_err(m, c)
-        impl = canon_container(jsonify_python_specific_types(copy.deepcopy(c)))
+        impl = guard(lambda c=c: canon_container(jsonify_python_specific_types(copy.deepcopy(c))))
         chk.case("jsonify_python_specific_types", key=enc_container(c), nontrivial=bool(c), sample={"container": c, "impl": impl})
         if typed(impl) != typed(m):
             chk.disagreement("jsonify_python_specific_types", c, m, impl)
@@ -394,7 +406,7 @@ def corr_jsonify_stringify(chk, n, vj):
     for (op, a), m in zip(reqs, outs):
         model_err(m, a)
         c = {k: (v["arr"] if isinstance(v, dict) and "arr" in v else dict(v["obj"]) if isinstance(v, dict) else v) for k, v in a["container"]}
-        impl = canon_container(_stringify_value(copy.deepcopy(c), "query" if a["isQuery"] else "headers"))
+        impl = guard(lambda c=c, a=a: canon_container(_stringify_value(copy.deepcopy(c), "query" if a["isQuery"] else "headers")))
         chk.case("_stringify_value", key=[a["isQuery"], a["container"]], nontrivial=bool(c), sample={"container": c, "impl": impl})
         if typed(impl) != typed(m):
             chk.disagreement("_stringify_value", {"container": c, "isQuery": a["isQuery"]}, m, impl)
@@ -849,11 +861,19 @@ def corr_url(chk, n, vq):
             formatted = prepare_path(t, quoted)
         except InvalidSchema:
             formatted = None
+        except Exception as e:  # noqa: BLE001
+            chk.violation(f"C06:prepare_path:raised-{type(e).__name__}", f"prepare_path({t!r}, {quoted!r}) raised {e!r}",
+                          {"mechanism": "url", "template": t, "params": params, "base": base})
+            continue
         reqs_path.append(("prepare_path", {"pieces": template_pieces(t), "params": [[B(k), pval_wire(v)] for k, v in quoted.items()]}))
         url = None
         if formatted is not None:
             case = pipes[t].operation.Case(path_parameters=quoted)
-            url = prepare_url(case, base)
+            url = guard(prepare_url, case, base)
+            if not isinstance(url, str) or url.startswith("EXC:"):
+                chk.violation(f"C06:prepare_url:raised", f"prepare_url({base!r}, {formatted!r}) gave {url!r}",
+                              {"mechanism": "url", "template": t, "params": params, "base": base})
+                continue
             sp = urlsplit(base)
             reqs_url.append(("prepare_url", {"bpath": B(sp.path), "path": B(formatted)}))
         meta.append((t, params, base, quoted, formatted, url))
@@ -990,7 +1010,10 @@ def replay_bodies(chk, n):
         else:
             body = {gen_text(rng, 3) or "k": rng.choice([gen_text(rng, 4), 5, "a b&c=d"]) for _ in range(rng.randrange(0, 4))}
         case = pl.operation.Case(body=copy.deepcopy(body), media_type=mt)
-        prep = pl.prepared(case)
+        prep = guard(pl.prepared, case)
+        if isinstance(prep, str):
+            chk.violation(f"C06:body[{mt}]:{prep}", f"preparing body {body!r} raised {prep}", {"mechanism": "body", "media_type": mt, "body": body})
+            continue
         raw = prep.body if isinstance(prep.body, (bytes, type(None))) else prep.body.encode("utf-8")
         chk.case(f"body[{mt}]", key=[mt, repr(body)], nontrivial=True, sample={"media_type": mt, "body": body, "wire": (raw or b"").decode("utf-8", "replace")})
         chk.feature(f"body:{mt}")
@@ -1062,7 +1085,7 @@ def corr_empty_dicts(chk, n):
     for c, m in zip(conts, outs):
         model_err(m, c)
         case = pl.operation.Case(query=copy.deepcopy(c))
-        impl = canon_container(REQUESTS_TRANSPORT.serialize_case(case, base_url=pl.base_url)["params"])
+        impl = guard(lambda case=case: canon_container(REQUESTS_TRANSPORT.serialize_case(case, base_url=pl.base_url)["params"]))
         chk.case("serialize_case.params", key=enc_container(c), nontrivial=any(v == {} for v in c.values()), sample={"query": c, "impl": impl})
         if typed(impl) != typed(m):
             chk.disagreement("serialize_case.params", c, m, impl)
